@@ -6,6 +6,7 @@ CONSTANTS
   Retention = 1
   MinDelay = 30
   QtScale = "1"
+  T0 = 1000000
   MaxNow = 63
 INIT Init
 NEXT Next
